@@ -895,6 +895,7 @@ type c11Match struct {
 	Skip      string // "", "PAST LAST ROW", "TO NEXT ROW", "TO FIRST B", "TO LAST B", "TO B"
 	Pattern   string
 	Defines   [][2]string
+	Twin      string // the same pattern with blanks between every quantifier and its reluctant mark / between all tokens
 }
 
 func (m c11Match) sql() string {
@@ -989,8 +990,12 @@ func c11Matches() []c11Match {
 	for _, part := range [][]string{nil, {"k"}, {"k", "site"}} {
 		for _, all := range []bool{false, true} {
 			for _, skip := range []string{"", "PAST LAST ROW", "TO NEXT ROW", "TO FIRST B", "TO LAST B", "TO B"} {
-				for pi, pat := range []string{"A B+", "A (B | C)* C", "A{2} B?"} {
-					m := c11Match{Partition: part, AllRows: all, Skip: skip, Pattern: pat,
+				twins := map[string]string{"A+? B": "A + ? B", "A*? B+": "A * ? B +", "A{1,2}? B??": "A {1,2} ? B ? ?", "(A B)+? C": "( A B ) + ? C"}
+				for pi, pat := range []string{"A B+", "A (B | C)* C", "A{2} B?", "A+? B", "A*? B+", "A{1,2}? B??", "(A B)+? C"} {
+					if pi >= 3 && (len(part) == 2 || skip == "TO FIRST B" || skip == "TO B") {
+						continue // the reluctant spellings on a subset of the clause combinations
+					}
+					m := c11Match{Partition: part, AllRows: all, Skip: skip, Pattern: pat, Twin: twins[pat],
 						Measures: [][2]string{{"MATCH_NUMBER()", "mn"}, {"LAST(id)", "l"}, {"FIRST(A.v)", "fa"}},
 						Defines:  [][2]string{{"A", "v > 1"}, {"B", "v < PREV(v)"}}}
 					if pi == 1 {
@@ -1063,6 +1068,19 @@ func c11RunMatches(a *acc) {
 		}
 		base := c11ConfigJSON(cfg0)
 		a.outcome(base)
+		if m.Twin != "" {
+			t := m
+			t.Pattern = m.Twin
+			tsql := t.sql()
+			cfgT, _, errT, pT := c11Parse(tsql)
+			a.r.Evaluations++
+			a.r.Transitions++
+			if pT != "" || errT != nil || cfgT == nil {
+				a.fail("C11|layout|match_recognize|pattern-spacing-rejected", fmt.Sprintf("PATTERN (%s) is accepted, the same pattern written PATTERN (%s) is rejected: %v %s", m.Pattern, m.Twin, errT, firstLine(pT)), map[string]any{"sql": tsql}, nil, nil)
+			} else if got := c11ConfigJSON(cfgT); got != base {
+				a.fail("C11|layout|match_recognize|pattern-spacing-changes-configuration", fmt.Sprintf("PATTERN (%s) and PATTERN (%s) give different configurations", m.Pattern, m.Twin), map[string]any{"sql": tsql, "compact": canonical}, base, got)
+			}
+		}
 		for kc := 0; kc < 3; kc++ {
 			for _, sep := range seps {
 				if kc == 0 && sep == " " {
